@@ -36,7 +36,7 @@ func (p *printer) Consume(d Digit) {
 		if p.digitsPerRow > 0 && p.digitCountSpec != "" {
 			p.skipRowsFor(d.Position)
 		}
-		for p.index < d.Position {
+		for p.index < d.Position && p.CanConsume() {
 			p.rawPrinter.Consume(p.missingDigit)
 		}
 	}
